@@ -65,10 +65,14 @@ func DecodePicTimingHevcSEI(sd *SEIData, exPar HEVCPicTimingParams) (SEIMessage,
 				if pt.DuCommonCpbRemovalDelayFlag {
 					pt.DuCommonCpbRemovalDelayIncrementMinus1 = uint32(br.Read(int(exPar.DuCpbRemovalDelayIncrementLengthMinus1) + 1))
 				}
-				for i := uint32(0); i <= pt.NumDecodingUnitsMinus1; i++ {
-					pt.NumNalusInDuMinus1[i] = uint32(br.ReadExpGolomb())
-					if !pt.DuCommonCpbRemovalDelayFlag && i < pt.NumDecodingUnitsMinus1 {
-						pt.DuCpbRemovalDelayIncrementMinus1[i] = uint32(br.Read(int(exPar.DuCpbRemovalDelayIncrementLengthMinus1) + 1))
+				for i := uint64(0); i <= uint64(pt.NumDecodingUnitsMinus1); i++ {
+					pt.NumNalusInDuMinus1 = append(pt.NumNalusInDuMinus1, uint32(br.ReadExpGolomb()))
+					if !pt.DuCommonCpbRemovalDelayFlag && i < uint64(pt.NumDecodingUnitsMinus1) {
+						pt.DuCpbRemovalDelayIncrementMinus1 = append(pt.DuCpbRemovalDelayIncrementMinus1,
+							uint32(br.Read(int(exPar.DuCpbRemovalDelayIncrementLengthMinus1)+1)))
+					}
+					if br.AccError() != nil {
+						break // num_decoding_units_minus1 is larger than what the payload holds
 					}
 				}
 			}
